@@ -60,7 +60,10 @@ def sortkey_model(repo):
     def value(x):
         return TupleV([Const(y) for y in x]) if isinstance(x, tuple) else Const(x)
     pairs = [(1, 2), (2, 1), (2, 2), ('a', 'b'), ('b', 'a'), (1.5, 2), (2, 1.5), (3, 2.5), (True, 0.5), (0.5, True), (1, True), ((1, 2), (1, 3)), ('a', 1), (1, 'a'), (None, 1), (1, None), ((1,), 'x'), ('x', (1,)),
-             (1j, 2j), (None, None), (b'a', 'a'), ('a', b'a')]
+             (1j, 2j), (None, None), (b'a', 'a'), ('a', b'a'),
+             # keys where a "natural" order (digit runs as numbers, case folded, shorter first) differs from the order of <
+             ('item9', 'item10'), ('item10', 'item9'), ('v1.9', 'v1.10'), ('10', '9'), ('B', 'a'), ('a', 'B'), ('ab', 'b'), ('', 'a'), (10, 9), (-1, 1),
+             ((2,), (1, 5)), (b'Z', b'a')]
     for a, b in pairs:
         it = Interp(repo, {'id': p_id, 'str': p_str}, max_paths=4, max_depth=40)
         it.concrete_context = True
